@@ -71,6 +71,9 @@ type provSpec struct {
 	CA string
 	// Dec: provisioner-specific decrypter: "" none, "both" certificate and key, "certonly".
 	Dec     string
+	// HookNames: how the webhooks are named: "" = w0, w1, … (unique), "empty" = every name empty,
+	// "same" = every webhook called "wh" (ca.json does not require names to be unique or present)
+	HookNames string
 	// KeyMode (with Dec "both"): "" the key as decrypterKeyPEM; "uri" as decrypterKey (a softkms URI);
 	// "uripem" the URI names the certified key and decrypterKeyPEM still holds another, older key;
 	// "urimismatch" the certificate certifies the PEM key while the URI names another key (Init fails)
@@ -136,6 +139,10 @@ var provSpecs = []provSpec{
 	{Name: "hbogus", Secret: staticSecret, Hooks: []hookSpec{{"bogus", "none", "allow"}}},
 	{Name: "hbadct", Hooks: []hookSpec{{"scep", "bad", "deny"}}},
 	{Name: "hbadct2", Secret: staticSecret, Hooks: []hookSpec{{"notify", "bad", "allow"}}, PreInits: 1},
+	// webhooks without names / with one name for all, challenge webhook last and first
+	{Name: "hnoname", HookNames: "empty", Hooks: []hookSpec{{"notify", "x509", "allow"}, {"scep", "x509", "deny"}}},
+	{Name: "hnoname2", HookNames: "empty", Hooks: []hookSpec{{"scep", "x509", "match"}, {"scep", "all", "deny"}, {"notify", "x509", "allow"}}, PreInits: 1},
+	{Name: "hsamename", Secret: staticSecret, HookNames: "same", Hooks: []hookSpec{{"enrich", "x509", "allow"}, {"scep", "none", "match"}}},
 	// Init options: content encryption algorithms, minimum key length, an identifier Init refuses
 	{Name: "palg0", Secret: staticSecret, EncAlg: 0, SetAlg: true},
 	{Name: "palg4", Secret: staticSecret, EncAlg: 4, SetAlg: true, MinLen: 1024},
@@ -151,6 +158,8 @@ var provSpecs = []provSpec{
 	{Name: "abogus", CA: "adm", Hooks: []hookSpec{{"bogus", "x509", "deny"}}},
 	{Name: "abadct", CA: "adm", Hooks: []hookSpec{{"scep", "bad", "deny"}}},
 	{Name: "apuripem", CA: "adm", Secret: staticSecret, Dec: "both", KeyMode: "uripem"},
+	{Name: "anoname", CA: "adm", HookNames: "empty", Hooks: []hookSpec{{"notify", "x509", "allow"}, {"scep", "x509", "deny"}}},
+	{Name: "asamename", CA: "adm", HookNames: "same", Hooks: []hookSpec{{"scep", "x509", "match"}, {"scep", "all", "deny"}, {"notify", "none", "allow"}}},
 	// the CA that really listens (TLS and plain HTTP) and is reloaded from its configuration file
 	{Name: "sstatic", CA: "srv", Secret: staticSecret},
 	{Name: "shdeny", CA: "srv", Hooks: []hookSpec{{"scep", "x509", "deny"}}},
@@ -205,6 +214,7 @@ func randomSpecs(seed uint64) []provSpec {
 		if r.Chance(1, 3) {
 			ps.Caps = []string{"SHA-256", "AES"}
 		}
+		ps.HookNames = c.Pick(r, []string{"", "", "empty", "same"})
 		ps.SetAlg, ps.EncAlg = true, r.Intn(5)
 		ps.MinLen = c.Pick(r, []int{0, 0, 1024, 2048})
 		if ps.CA != "adm" {
@@ -418,6 +428,16 @@ func specInitFails(ps *provSpec, converted bool) bool {
 		}
 	}
 	return (ps.SetAlg && ps.EncAlg > 4) || ps.MinLen%8 != 0 || ps.KeyMode == "urimismatch"
+}
+
+func hookName(ps *provSpec, i int) string {
+	switch ps.HookNames {
+	case "empty":
+		return ""
+	case "same":
+		return "wh"
+	}
+	return fmt.Sprintf("w%d", i)
 }
 
 // keyFields: which key (1 = the one the decrypter certificate certifies, 2 = another one) the
@@ -644,7 +664,7 @@ func (t *testCA) buildProv(ps *provSpec) (*provisioner.SCEP, error) {
 			}
 			p.Options.Webhooks = append(p.Options.Webhooks, &provisioner.Webhook{
 				ID:       id,
-				Name:     fmt.Sprintf("w%d", i),
+				Name:     hookName(ps, i),
 				URL:      t.hooks.srv.URL + "/" + h.Path,
 				Kind:     kindName(h.Kind),
 				CertType: certTypeName(h.CT),
